@@ -17,16 +17,17 @@ DROPPED = ["VmGreenThread.new_threads_sender (mpsc Sender: no Verus model; Spawn
            "VmSharedReadonly fields under #[cfg(feature = \"ffi\")] (FFI build configuration not covered)"]
 
 ASSUMED = [
+    "verus/vmenv: `global size_of usize == 8` (64-bit target, as the VM's own `const _: [(); 16] = [(); size_of::<Value>()]` requires)",
     "verus/vmenv: value encoding axioms val_int/int_of, val_bool/bool_of (round trips) — discharged separately by Kani U4.enc.* on the real From<_> for Value / Value::get_* text",
     "verus/vmenv: contract of load_offset_or_top / store_offset_or_top (external_body stand-in) — discharged separately by Kani U4.stack.* on the real text (bounded stack length)",
     "verus/vmenv: make_error(kind) returns an error whose kind is `kind` (external_body; drops location/trace construction, see C32)",
 ]
 
 
-def prelude(extra_spec=()):
-    """Returns (text, rewrite_notes)."""
+def prelude(extra_spec=(), stubs=True):
+    """Assembled Verus prelude text: real types + spec vocabulary (+ helper stand-ins)."""
     parts = ["#![allow(unused_imports, dead_code, unused_variables, non_snake_case, unused_mut, unused_assignments)]\n"
-             "use vstd::prelude::*;\nuse std::sync::Arc;\nverus! {\n"]
+             "use vstd::prelude::*;\nuse std::sync::Arc;\nverus! {\nglobal size_of usize == 8;\n"]
     parts.append("pub type AbraInt = i64;\npub type AbraFloat = f64;\ntype BytecodeIndex = u32;\n")
     for rx in REAL_TYPES:
         parts.append("// ---- real (vm.rs) ----\n" + S.item(V, rx) + "\n")
@@ -36,6 +37,9 @@ def prelude(extra_spec=()):
     parts.append("// ---- real (vm.rs), field new_threads_sender dropped ----\n" + th + "\n")
     with open(os.path.join(HERE, 'spec.rs')) as f:
         parts.append(f.read())
+    if stubs:
+        with open(os.path.join(HERE, 'stubs.rs')) as f:
+            parts.append(f.read())
     for p in extra_spec:
         with open(p) as f:
             parts.append(f.read())
@@ -73,3 +77,14 @@ def lift(arm, contract, ret_name='cont'):
     """Splice a contract between the signature and the body of a lifted arm."""
     sig = arm['sig'].replace('-> bool', '-> (%s: bool)' % ret_name)
     return "    %s\n%s    {%s    true\n    }\n" % (sig, contract, arm['body'])
+
+
+def stub_contract(name):
+    """requires/ensures text of the stand-in `fn name` in stubs.rs (so that the unit that
+    proves the real function uses exactly the contract the other units assume)."""
+    with open(os.path.join(HERE, 'stubs.rs')) as f:
+        t = f.read()
+    m = re.search(r'fn %s\b[^\n]*\n((?:\s+(?:requires|ensures)[^\{]*?))\{ unimplemented!\(\) \}' % re.escape(name), t, re.S)
+    if not m:
+        raise S.SliceError("stub contract for %s not found" % name)
+    return m.group(1).rstrip() + "\n"
